@@ -365,6 +365,28 @@ example : AslProofs.Csv.FitsAll 44 [.str, .num, .skip] [.str [48, 48, 55], .num 
   simp only [List.mem_cons, List.not_mem_nil, or_false] at hx
   rcases hx with e | e | e <;> subst e <;> simp [Csv.localize, CellOK]
 
+/-- **csv_typed_hex.**  A column read as `h` (`readAs("…h…")`, `String::hexToInt` = `(unsigned) strtoul(text, NULL, 16)`,
+    then `Var(unsigned)`): every hex number text — optional `0x` / `0X`, one or more digits of either case, value below
+    2^32 — comes back as its positional value, as an `int` below 2^31 and as the exact double from 2^31 on, whatever
+    decimal symbol the reader uses.  Through `Fits` / `typedSpec` the same holds inside `csv_typed_row` and the
+    `csv_table_roundtrip_typed` tables (an `h` column holds string cells that are hex texts).  Texts outside `HexText`
+    (sign, blanks, junk tails, 32- and 64-bit overflow) are in the model (`Csv.hexU32`) and compared by K only. -/
+theorem csv_typed_hex (dec : UInt8) (s : Bytes) (h : AslProofs.Csv.HexText s) :
+    Csv.typedCell dec .hex s = some (AslProofs.Csv.hexCell (AslProofs.Csv.hexValue s)) ∧
+      AslProofs.Csv.hexValue s < 4294967296 := by
+  have e := AslProofs.Csv.hexU32_hexText s h
+  exact ⟨by simp only [Csv.typedCell, AslProofs.Csv.hexCell, e.1], e.2⟩
+
+/-- `0xFf` is a hex text and denotes 255; `80000000` denotes 2^31, returned as a double -/
+example : AslProofs.Csv.HexText [48, 120, 70, 102] ∧ AslProofs.Csv.hexValue [48, 120, 70, 102] = 255 ∧
+    Csv.typedCell 46 .hex [56, 48, 48, 48, 48, 48, 48, 48] = some (.num ⟨false, 2147483648, 0⟩) := by
+  refine ⟨⟨[48, 120], [70, 102], Or.inr (Or.inl rfl), rfl, by simp, ?_, by decide⟩, by decide, by decide⟩
+  intro c hc; simp at hc; rcases hc with rfl | rfl <;> decide
+
+/-- a row with an `h` column inside `csv_typed_row`: `x ; 1F` read as `s h` -/
+example : Csv.typedRow 46 [.str, .hex] (parseRow 59 (Csv.rowTextG 59 46 [.str [120], .str [49, 70]]))
+    = [.str [120], .int 31] := by decide
+
 /-- **csv_header_sniff.**  `readHeader` recognises the separator of every header the writer produces with `,`, `;` or
     tab from identifier column names — two columns at least unless the separator is the default — whatever follows
     the header line: separator as written, decimal symbol `,` for `;` files and `.` otherwise, names as written,
